@@ -116,6 +116,12 @@ def run_case(case, ctx):
     out = obs["result"]
     sel = obs["selected"]
     nfound = len(found)
+    if obs.get("selection_inferred"):
+        st.count("selections_read_off_the_result")
+    if sel is None:
+        # fraction < 1, the draw was not seen and the result does not tell which matches were taken (nothing is removed per match)
+        st.count("not_judged.selection_unknown")
+        return
     # number replaced: a nearest integer to f * found
     x = f * nfound
     if abs(len(sel) - x) > 0.5 + 1e-9:
@@ -251,8 +257,8 @@ def requirements(stats, tier):
             need.append("sample schedule %s not observed" % s)
     if stats.get("replacements_bringing_new_extra_columns") < 50:
         need.append("replacements whose pattern brings new extra columns: %d" % stats.get("replacements_bringing_new_extra_columns"))
-    if stats.get("event.sample") < 50:
-        need.append("random.sample inside mofun observed only %d times" % stats.get("event.sample"))
+    if stats.get("event.sample") + stats.get("selections_read_off_the_result") < 50:
+        need.append("partial selections observed only %d times (random.sample inside mofun) + %d times (read off the result)" % (stats.get("event.sample"), stats.get("selections_read_off_the_result")))
     if stats.nseen("cell_class") < len(planted.CELL_CLASSES):
         need.append("not all cell classes observed")
     return need
